@@ -1,6 +1,8 @@
 (* Builder invariants: no entry is left unfinished (C03), rebuilding with known
    roots is the identity (C19). *)
 From Coq Require Import Arith.
+From RecordUpdate Require Import RecordSet.
+Import RecordSetNotations.
 From DG Require Import Base.Util Base.Sexp Model.Graph Model.Builder.
 
 (* ---------- association-list facts ---------- *)
@@ -42,13 +44,18 @@ Definition PendInv (x : option spec) (st : bstate) : Prop :=
   forall s a, Some s <> x -> lookup s (st_slots st) = Some (BPending a) ->
     In s (map pi_spec (st_pending st)).
 
+(* the invariant only looks at slots and the queue *)
+Lemma PendInv_ext : forall x st st',
+  st_slots st' = st_slots st -> st_pending st' = st_pending st -> PendInv x st -> PendInv x st'.
+Proof. intros x st st' Hs Hp H s a Hx Hl. rewrite Hs in Hl. rewrite Hp. exact (H s a Hx Hl). Qed.
+
 Lemma PendInv_weaken : forall x st, PendInv None st -> PendInv x st.
 Proof. intros x st H s a _ Hl. apply (H s a); [discriminate | exact Hl]. Qed.
 
 Lemma set_slot_nonpending_inv : forall x st s v,
   PendInv x st -> is_pending v = false -> PendInv x (set_slot st s v).
 Proof.
-  intros x st s v H Hv s0 a Hx Hl. unfold set_slot, with_slots in *. cbn [st_slots st_pending] in *.
+  intros x st s v H Hv s0 a Hx Hl. unfold set_slot in *. cbn in *.
   destruct (N.eq_dec s0 s) as [->|Hne].
   - rewrite lookup_set_assoc_same in Hl. inversion Hl; subst. discriminate.
   - rewrite lookup_set_assoc_other in Hl by exact Hne. apply (H s0 a Hx Hl).
@@ -58,10 +65,20 @@ Qed.
 Lemma set_slot_at_x_inv : forall st s v,
   PendInv (Some s) st -> is_pending v = false -> PendInv None (set_slot st s v).
 Proof.
-  intros st s v H Hv s0 a _ Hl. unfold set_slot, with_slots in *. cbn [st_slots st_pending] in *.
+  intros st s v H Hv s0 a _ Hl. unfold set_slot in *. cbn in *.
   destruct (N.eq_dec s0 s) as [->|Hne].
   - rewrite lookup_set_assoc_same in Hl. inversion Hl; subst. discriminate.
   - rewrite lookup_set_assoc_other in Hl by exact Hne. apply (H s0 a); [congruence | exact Hl].
+Qed.
+
+Lemma queue_load_inv : forall x st s range asset in_dyn root attr count,
+  PendInv x st -> PendInv x (queue_load st s range asset in_dyn root attr count).
+Proof.
+  intros x st s range asset in_dyn root attr count H s0 a Hx Hl.
+  unfold queue_load, set_slot in *. cbn in *.
+  rewrite map_app, in_app_iff. cbn [map pi_spec In].
+  destruct (N.eq_dec s0 s) as [->|Hne]; [right; left; reflexivity|].
+  rewrite lookup_set_assoc_other in Hl by exact Hne. left. apply (H s0 a Hx Hl).
 Qed.
 
 Lemma load_inv : forall W o x st spec0 range asset in_dyn root attr count,
@@ -73,37 +90,18 @@ Proof.
   { apply set_slot_nonpending_inv; [exact H | reflexivity]. }
   assert (Hproceed : PendInv x
     match class_of W s with
-    | SNode =>
-        let st' := set_slot st s (BMod (node_module s)) in
-        {| st_slots := st_slots st'; st_redirects := st_redirects st'; st_has_node := true;
-           st_pending := st_pending st'; st_dyn := st_dyn st'; st_deferred := st_deferred st';
-           st_in_dyn := st_in_dyn st'; st_resolved_roots := st_resolved_roots st'; st_loads := st_loads st' |}
+    | SNode => (set_slot st s (BMod (node_module s))) <| st_has_node := true |>
     | SBad => set_slot st s (BErr (BBadSpecifier s range))
-    | SUrl =>
-        let st' := set_slot st s (BPending asset) in
-        {| st_slots := st_slots st'; st_redirects := st_redirects st'; st_has_node := st_has_node st';
-           st_pending := st_pending st' ++
-             [{| pi_spec := s; pi_range := range; pi_count := count; pi_attr := attr;
-                 pi_asset := asset; pi_dyn := in_dyn; pi_root := root |}];
-           st_dyn := st_dyn st'; st_deferred := st_deferred st';
-           st_in_dyn := st_in_dyn st'; st_resolved_roots := st_resolved_roots st'; st_loads := st_loads st' |}
+    | SUrl => queue_load st s range asset in_dyn root attr count
     end).
   { destruct (class_of W s).
-    - (* url *)
-      intros s0 a Hx Hl. cbn [st_slots st_pending set_slot with_slots] in *.
-      rewrite map_app, in_app_iff. cbn [map pi_spec In].
-      destruct (N.eq_dec s0 s) as [->|Hne]; [right; left; reflexivity|].
-      rewrite lookup_set_assoc_other in Hl by exact Hne. left. apply (H s0 a Hx Hl).
-    - (* node *)
-      intros s0 a Hx Hl. cbn [st_slots st_pending set_slot with_slots] in *.
-      destruct (N.eq_dec s0 s) as [->|Hne].
-      + rewrite lookup_set_assoc_same in Hl. discriminate.
-      + rewrite lookup_set_assoc_other in Hl by exact Hne. apply (H s0 a Hx Hl).
+    - apply queue_load_inv. exact H.
+    - eapply PendInv_ext; [| |apply (set_slot_nonpending_inv x st s (BMod (node_module s)) H eq_refl)]; reflexivity.
     - apply set_slot_nonpending_inv; [exact H | reflexivity]. }
   destruct (lookup s (st_slots st)) as [sl|]; [|exact Hproceed].
   destruct (match sl with BExternal true => negb asset | _ => false end); [exact Hproceed|].
   destruct (match sl with BPending true => negb asset | _ => false end); [|exact H].
-  intros s0 a Hx Hl. cbn [st_slots st_pending] in *. apply (H s0 a Hx Hl).
+  eapply PendInv_ext; [| |exact H]; reflexivity.
 Qed.
 
 Lemma check_specifier_inv : forall st requested s,
@@ -111,7 +109,7 @@ Lemma check_specifier_inv : forall st requested s,
   PendInv None (check_specifier st requested s).
 Proof.
   intros st requested s H Hne s0 a _ Hl. unfold check_specifier in *.
-  apply N.eqb_neq in Hne. rewrite Hne in Hl |- *. cbn [st_slots st_pending] in *.
+  apply N.eqb_neq in Hne. rewrite Hne in Hl |- *. cbn in *.
   destruct (N.eq_dec s0 requested) as [->|Hne0].
   - destruct (lookup requested (st_slots st)) as [[m|b|e|b]|] eqn:E; try congruence.
     rewrite lookup_remove_assoc_same in Hl. discriminate.
@@ -124,7 +122,16 @@ Lemma check_specifier_same : forall st s, check_specifier st s s = st.
 Proof. intros st s. unfold check_specifier. rewrite N.eqb_refl. reflexivity. Qed.
 
 Lemma add_resolved_root_inv : forall x st s, PendInv x st -> PendInv x (add_resolved_root st s).
-Proof. intros x st s H s0 a Hx Hl. cbn [add_resolved_root st_slots st_pending] in *. apply (H s0 a Hx Hl). Qed.
+Proof. intros x st s H. eapply PendInv_ext; [| |exact H]; reflexivity. Qed.
+
+Lemma record_checksum_inv : forall W x st final media wm,
+  PendInv x st -> PendInv x (record_checksum W st final media wm).
+Proof.
+  intros W x st final media wm H. unfold record_checksum.
+  destruct (st_lock st) as [l|]; [|exact H].
+  destruct (negb (is_declaration media) && mem final (w_http W) && negb (has_key final l)); [|exact H].
+  eapply PendInv_ext; [| |exact H]; reflexivity.
+Qed.
 
 Lemma visit_dep_inv : forall W o x st da st' d',
   PendInv x st -> visit_dep W o st da = (st', d') -> PendInv x st'.
@@ -142,12 +149,12 @@ Proof.
   { unfold st1. destruct (include_code (bo_kind o) || is_rnone (d_type d)); [|exact H].
     destruct (d_code d) as [|t range|e]; try exact H.
     destruct (d_dyn d && negb (st_in_dyn st)).
-    - intros s0 a Hx Hl. cbn [with_dyn st_slots st_pending] in *. apply (H s0 a Hx Hl).
+    - eapply PendInv_ext; [| |exact H]; reflexivity.
     - apply load_inv. exact H. }
   destruct (include_types (bo_kind o)); [|exact H1].
   destruct (d_type d) as [|t range|e]; try exact H1.
   destruct (d_dyn d && negb (st_in_dyn st1)).
-  - intros s0 a Hx Hl. cbn [with_dyn st_slots st_pending] in *. apply (H1 s0 a Hx Hl).
+  - eapply PendInv_ext; [| |exact H1]; reflexivity.
   - apply load_inv. exact H1.
 Qed.
 
@@ -168,24 +175,37 @@ Proof.
   destruct tdep as [td|]; [|exact H]. destruct (td_res td); try exact H. apply load_inv. exact H.
 Qed.
 
-Lemma visit_module_inv : forall W o x st final wm st' m,
-  PendInv x st -> visit_module W o st final wm = (st', m) -> PendInv x st'.
+Lemma visit_module_inv : forall W o x st final wm,
+  PendInv x st -> PendInv x (fst (visit_module W o st final wm)).
 Proof.
-  intros W o x st final wm st' m H Hv. unfold visit_module in Hv.
+  intros W o x st final wm H. unfold visit_module.
   assert (Hd : PendInv x (fst (visit_deps W o st (wm_deps wm)))).
   { destruct (visit_deps W o st (wm_deps wm)) as [st1 ds] eqn:E. cbn [fst].
     eapply visit_deps_inv; eassumption. }
   assert (Hj : PendInv x (load_types_dep W o
                  (fst (if follow_deps o wm then visit_deps W o st (wm_deps wm) else (st, []))) (wm_tdep wm))).
   { apply load_types_dep_inv. destruct (follow_deps o wm); [exact Hd | exact H]. }
-  destruct (wm_kind wm); inversion Hv; subst; assumption.
+  destruct (wm_kind wm); cbn [fst]; assumption.
 Qed.
 
-Definition log_load (st : bstate) (it : pitem) : bstate :=
-  {| st_slots := st_slots st; st_redirects := st_redirects st; st_has_node := st_has_node st;
-     st_pending := st_pending st; st_dyn := st_dyn st; st_deferred := st_deferred st;
-     st_in_dyn := st_in_dyn st; st_resolved_roots := st_resolved_roots st;
-     st_loads := (pi_spec it, pi_asset it) :: st_loads st |}.
+Lemma try_load_redirect_ne : forall W it to calls,
+  try_load W it = (PRedirect to, calls) -> pi_spec it <> to.
+Proof.
+  intros W it to calls H. unfold try_load in H.
+  destruct (loader_call W (pi_spec it) false (pi_checksum it)) as [[| |to'|f|f wm']|].
+  - inversion H.
+  - inversion H.
+  - destruct (pi_checksum it); [inversion H|].
+    destruct (Nat.leb (w_max_redirects W) (pi_count it) || N.eqb to' (pi_spec it)) eqn:E; [inversion H|].
+    inversion H; subst. apply orb_false_iff in E. destruct E as [_ E]. apply N.eqb_neq in E. congruence.
+  - destruct (pi_asset it); inversion H.
+  - destruct (pi_asset it); [inversion H|]. unfold module_result in H.
+    destruct (accept W f wm' (pi_attr it) (pi_range it) (pi_root it) (pi_dyn it)); inversion H.
+  - destruct (loader_call W (pi_spec it) true (pi_checksum it)) as [[| |to'|f|f wm']|]; try (inversion H; fail).
+    + destruct (pi_asset it); inversion H.
+    + destruct (pi_asset it); [inversion H|]. unfold module_result in H.
+      destruct (accept W f wm' (pi_attr it) (pi_range it) (pi_root it) (pi_dyn it)); inversion H.
+Qed.
 
 (* processing the completed load of [it] (already removed from the queue)
    re-establishes the invariant without exception *)
@@ -193,23 +213,17 @@ Lemma process_inv : forall W o st it,
   PendInv (Some (pi_spec it)) st -> PendInv None (process W o st it).
 Proof.
   intros W o st it H. unfold process.
-  fold (log_load st it).
-  assert (HL : PendInv (Some (pi_spec it)) (log_load st it)).
-  { intros s0 a Hx Hl. cbn [log_load st_slots st_pending] in *. apply (H s0 a Hx Hl). }
-  set (st0 := log_load st it) in *.
-  destruct (try_load W it) as [e|to|final wa|final media|final wm] eqn:Et.
+  destruct (try_load W it) as [res calls] eqn:Et.
+  set (st0 := st <| st_calls := rev calls ++ st_calls st |>).
+  assert (HL : PendInv (Some (pi_spec it)) st0).
+  { eapply PendInv_ext; [| |exact H]; reflexivity. }
+  destruct res as [e|to|final wa|final wm|final wm].
   - (* error *)
     destruct (N.eq_dec (pi_spec it) (berr_spec e)) as [Heq|Hne].
     + rewrite <- Heq. rewrite check_specifier_same. apply set_slot_at_x_inv; [exact HL | reflexivity].
     + apply set_slot_nonpending_inv; [|reflexivity]. apply check_specifier_inv; assumption.
   - (* redirect: try_load guarantees to <> requested *)
-    assert (Hne : pi_spec it <> to).
-    { unfold try_load in Et. destruct (resp_of W (pi_spec it)) as [| |to'|f|f wm']; try discriminate.
-      - destruct (Nat.leb (w_max_redirects W) (pi_count it) || N.eqb to' (pi_spec it)) eqn:E; [discriminate|].
-        inversion Et; subst. apply orb_false_iff in E. destruct E as [_ E]. apply N.eqb_neq in E. congruence.
-      - destruct (pi_asset it); discriminate.
-      - destruct (pi_asset it); [discriminate|].
-        destruct (accept W f wm' (pi_attr it) (pi_range it) (pi_root it) (pi_dyn it)); discriminate. }
+    pose proof (try_load_redirect_ne _ _ _ _ Et) as Hne.
     apply load_inv. apply check_specifier_inv; assumption.
   - (* external *)
     destruct (N.eq_dec (pi_spec it) final) as [Heq|Hne].
@@ -236,25 +250,17 @@ Proof.
   - (* json *)
     destruct (N.eq_dec (pi_spec it) final) as [Heq|Hne].
     + rewrite <- Heq. rewrite check_specifier_same.
-      apply set_slot_at_x_inv; [|reflexivity].
+      apply set_slot_at_x_inv; [|reflexivity]. apply record_checksum_inv.
       destruct (pi_root it); [apply add_resolved_root_inv|]; exact HL.
-    + apply set_slot_nonpending_inv; [|reflexivity].
+    + apply set_slot_nonpending_inv; [|reflexivity]. apply record_checksum_inv.
       destruct (pi_root it); [apply add_resolved_root_inv|]; apply check_specifier_inv; assumption.
   - (* code module *)
     destruct (N.eq_dec (pi_spec it) final) as [Heq|Hne].
     + rewrite <- Heq. rewrite check_specifier_same.
-      set (st2 := if pi_root it then add_resolved_root st0 (pi_spec it) else st0).
-      assert (H2 : PendInv (Some (pi_spec it)) st2).
-      { unfold st2. destruct (pi_root it); [apply add_resolved_root_inv|]; exact HL. }
-      destruct (visit_module W o st2 (pi_spec it) wm) as [st3 m] eqn:Ev.
-      apply set_slot_at_x_inv; [|reflexivity]. eapply visit_module_inv; eassumption.
-    + set (st1 := check_specifier st0 (pi_spec it) final).
-      assert (H1 : PendInv None st1) by (apply check_specifier_inv; assumption).
-      set (st2 := if pi_root it then add_resolved_root st1 final else st1).
-      assert (H2 : PendInv None st2).
-      { unfold st2. destruct (pi_root it); [apply add_resolved_root_inv|]; exact H1. }
-      destruct (visit_module W o st2 final wm) as [st3 m] eqn:Ev.
-      apply set_slot_nonpending_inv; [|reflexivity]. eapply visit_module_inv; eassumption.
+      apply set_slot_at_x_inv; [|reflexivity]. apply visit_module_inv. apply record_checksum_inv.
+      destruct (pi_root it); [apply add_resolved_root_inv|]; exact HL.
+    + apply set_slot_nonpending_inv; [|reflexivity]. apply visit_module_inv. apply record_checksum_inv.
+      destruct (pi_root it); [apply add_resolved_root_inv|]; apply check_specifier_inv; assumption.
 Qed.
 
 Lemma load_branches_inv : forall W o bs st, PendInv None st -> PendInv None (load_branches W o st bs).
@@ -277,19 +283,14 @@ Proof.
               | [] => st end).
   assert (H1 : PendInv None st1).
   { unfold st1. destruct (st_pending st) as [|it rest] eqn:Ep; [exact H|].
-    apply process_inv. intros s0 a Hx Hl. cbn [st_slots st_pending] in *.
+    apply process_inv. intros s0 a Hx Hl. cbn in *.
     specialize (H s0 a). rewrite Ep in H. cbn [map In] in H.
     destruct (H ltac:(discriminate) Hl) as [Heq|Hin]; [congruence | exact Hin]. }
   destruct (st_pending st1) as [|i r] eqn:Ep1; [|exact H1].
-  assert (Hbase : forall d dy ind, PendInv None
-     {| st_slots := st_slots st1; st_redirects := st_redirects st1; st_has_node := st_has_node st1;
-        st_pending := []; st_dyn := dy; st_deferred := d; st_in_dyn := ind;
-        st_resolved_roots := st_resolved_roots st1; st_loads := st_loads st1 |}).
-  { intros d dy ind s0 a Hx Hl. cbn [st_slots st_pending] in *.
-    specialize (H1 s0 a Hx Hl). rewrite Ep1 in H1. exact H1. }
   destruct (st_deferred st1) as [|d ds].
-  - destruct (st_in_dyn st1); [exact H1|]. apply load_branches_inv. apply Hbase.
-  - apply load_deferred_inv. apply Hbase.
+  - destruct (st_in_dyn st1); [exact H1|]. apply load_branches_inv.
+    eapply PendInv_ext; [| |exact H1]; reflexivity.
+  - apply load_deferred_inv. eapply PendInv_ext; [| |exact H1]; reflexivity.
 Qed.
 
 Lemma resolve_pending_inv : forall fuel W o st st',
@@ -326,6 +327,9 @@ Qed.
 Definition no_pending (slots : list (spec * bslot)) : Prop :=
   forall s a, lookup s slots <> Some (BPending a).
 
+Lemma init_state_inv : forall W o g, no_pending (bg_slots g) -> PendInv None (init_state W o g).
+Proof. intros W o g Hg s a _ Hl. cbn in Hl. exfalso. exact (Hg s a Hl). Qed.
+
 (* C03: a completed build leaves no entry unfinished *)
 Theorem build_no_pending : forall W o g roots imports g',
   no_pending (bg_slots g) -> build W o g roots imports = Some g' -> no_pending (bg_slots g').
@@ -333,11 +337,33 @@ Proof.
   intros W o g roots imports g' Hg Hb. unfold build in Hb.
   match type of Hb with context [resolve_pending ?f W o ?st] => set (st2 := st) in *; set (fuel := f) in * end.
   destruct (resolve_pending fuel W o st2) as [st|] eqn:HR; [|discriminate].
-  inversion Hb; subst; clear Hb. cbn [bg_slots].
+  inversion Hb; subst; clear Hb. cbn [bg_slots finish].
   assert (H2 : PendInv None st2).
-  { unfold st2. apply load_imports_inv. apply load_roots_inv.
-    intros s a _ Hl. cbn [st_slots] in Hl. exfalso. exact (Hg s a Hl). }
+  { unfold st2. apply load_imports_inv. apply load_roots_inv. apply init_state_inv. exact Hg. }
   destruct (resolve_pending_inv _ _ _ _ _ H2 HR) as [Hinv Hp].
+  intros s a Hl. specialize (Hinv s a ltac:(discriminate) Hl). rewrite Hp in Hinv. exact Hinv.
+Qed.
+
+(* ... and so does a reload *)
+Lemma reload_specs_inv : forall W o specs st, PendInv None st -> PendInv None (reload_specs W o st specs).
+Proof.
+  intros W o specs. induction specs as [|s rest IH]; intros st H; cbn [reload_specs]; [exact H|].
+  apply IH. apply load_inv.
+  intros s0 a Hx Hl. cbn in *.
+  destruct (N.eq_dec s0 s) as [->|Hne]; [rewrite lookup_remove_assoc_same in Hl; discriminate|].
+  rewrite lookup_remove_assoc_other in Hl by exact Hne. exact (H s0 a Hx Hl).
+Qed.
+
+Theorem reload_no_pending : forall W o g specs g',
+  no_pending (bg_slots g) -> reload W o g specs = Some g' -> no_pending (bg_slots g').
+Proof.
+  intros W o g specs g' Hg Hb. unfold reload in Hb.
+  match type of Hb with context [resolve_pending ?f W o ?st] => set (st1 := st) in *; set (fuel := f) in * end.
+  destruct (resolve_pending fuel W o st1) as [st|] eqn:HR; [|discriminate].
+  inversion Hb; subst; clear Hb. cbn [bg_slots finish].
+  assert (H1 : PendInv None st1).
+  { unfold st1. apply reload_specs_inv. apply init_state_inv. exact Hg. }
+  destruct (resolve_pending_inv _ _ _ _ _ H1 HR) as [Hinv Hp].
   intros s a Hl. specialize (Hinv s a ltac:(discriminate) Hl). rewrite Hp in Hinv. exact Hinv.
 Qed.
 
@@ -348,7 +374,7 @@ Theorem build_known_roots_identity : forall W o g roots imports,
   build W o g roots imports =
     Some {| bg_kind := bg_kind g; bg_roots := bg_roots g; bg_slots := bg_slots g;
             bg_redirects := bg_redirects g; bg_imports := bg_imports g; bg_has_node := bg_has_node g;
-            bg_loads := [] |}.
+            bg_calls := []; bg_lock_sets := [] |}.
 Proof.
   intros W o g roots imports Hr Hi. unfold build.
   assert (E1 : filter (fun r => negb (mem r (bg_roots g))) roots = []).
@@ -359,6 +385,5 @@ Proof.
   { unfold spec in *. induction imports as [|p ps IH]; [reflexivity|]. cbn [filter].
     rewrite (Hi p (or_introl eq_refl)). cbn [negb]. apply IH. intros p' H'. apply Hi. right; exact H'. }
   unfold spec in *. rewrite E1, E2. cbn [dedup_keep_first dedup_keep_first_aux load_roots load_imports].
-  unfold build_fuel. cbn [resolve_pending idle st_pending st_dyn st_deferred].
-  rewrite !app_nil_r. reflexivity.
+  unfold build_fuel. cbn. rewrite !app_nil_r. reflexivity.
 Qed.
